@@ -27,7 +27,7 @@ func sortCalls(info *types.Info, n ast.Node) []sortInfo {
 	var out []sortInfo
 	for _, c := range core.CallsIn(n, false) {
 		nm := core.CalleeName(info, c)
-		if nm != "sort.Slice" && nm != "sort.SliceStable" {
+		if nm != "sort.Slice" && nm != "sort.SliceStable" && nm != "slices.SortFunc" && nm != "slices.SortStableFunc" {
 			continue
 		}
 		if len(c.Args) != 2 {
@@ -59,7 +59,16 @@ func analyzeComparator(info *types.Info, lit *ast.FuncLit, si *sortInfo) {
 	}
 	be, ok := core.Unparen(ret.Results[0]).(*ast.BinaryExpr)
 	if !ok {
-		return
+		// three-way comparator of slices.SortFunc: cmp.Compare(x, y) orders x before y when x < y
+		if c, isCall := core.Unparen(ret.Results[0]).(*ast.CallExpr); isCall && len(c.Args) == 2 {
+			switch core.CalleeName(info, c) {
+			case "cmp.Compare", "strings.Compare", "bytes.Compare":
+				be = &ast.BinaryExpr{X: c.Args[0], Op: token.LSS, Y: c.Args[1]}
+			}
+		}
+		if be == nil {
+			return
+		}
 	}
 	iObj, jObj := info.Defs[names[0]], info.Defs[names[1]]
 	op := be.Op
